@@ -26,17 +26,28 @@ class TieBroken(Exception):
 
 
 class _Lock(object):
-    """lake workspaces are not concurrency-safe: serialise every lake invocation."""
+    """lake workspaces are not concurrency-safe and Gen/*.lean is shared: one process at a
+    time may translate / build / audit / start drivers.  Re-entrant within a process."""
+    depth = 0
+    fh = None
 
     def __enter__(self):
-        os.makedirs(WORK, exist_ok=True)
-        self.f = open(os.path.join(WORK, 'lake.lock'), 'w')
-        fcntl.flock(self.f, fcntl.LOCK_EX)
+        if _Lock.depth == 0:
+            os.makedirs(WORK, exist_ok=True)
+            _Lock.fh = open(os.path.join(WORK, 'lake.lock'), 'w')
+            fcntl.flock(_Lock.fh, fcntl.LOCK_EX)
+        _Lock.depth += 1
         return self
 
     def __exit__(self, *a):
-        fcntl.flock(self.f, fcntl.LOCK_UN)
-        self.f.close()
+        _Lock.depth -= 1
+        if _Lock.depth == 0:
+            fcntl.flock(_Lock.fh, fcntl.LOCK_UN)
+            _Lock.fh.close()
+            _Lock.fh = None
+
+
+Lock = _Lock
 
 
 def _run(cmd, timeout):
